@@ -651,7 +651,7 @@ static void DecodeSINGLE(Word Code) {
 
     UNUSED(Code);
 
-    if (ChkArgCnt(1, ArgCntMax)) {
+    if (ChkArgCnt(1, ArgCntMax) && !SetMaxCodeLen(ArgCnt * 4)) {
         OK = True;
         forallargs(pArg, True) if (OK) {
             f = EvalStrFloatExpression(pArg, Float64, &OK);
@@ -672,7 +672,7 @@ static void DecodeEXTENDED(Word Code) {
 
     UNUSED(Code);
 
-    if (ChkArgCnt(1, ArgCntMax)) {
+    if (ChkArgCnt(1, ArgCntMax) && !SetMaxCodeLen(ArgCnt * 8)) {
         OK = True;
         forallargs(pArg, True) if (OK) {
             f = EvalStrFloatExpression(pArg, Float64, &OK);
@@ -693,7 +693,9 @@ static void DecodeWORD_TI34x(Word Code) {
 
     UNUSED(Code);
 
-    if (ChkArgCnt(1, ArgCntMax)) {
+    /* (the code buffer holds 256 bytes unless told otherwise) */
+
+    if (ChkArgCnt(1, ArgCntMax) && !SetMaxCodeLen(ArgCnt * 4)) {
         OK = True;
         forallargs(pArg, True) if (OK) DAsmCode[CodeLen++]
                 = EvalStrIntExpression(pArg, Int32, &OK);
@@ -712,6 +714,15 @@ static void DecodeDATA_TI34x(Word Code) {
     as_tempres_ini(&t);
 
     if (ChkArgCnt(1, ArgCntMax)) {
+        size_t MaxLen = 0;
+
+        /* a word per number, a byte per character of a string (rounded up to words) */
+
+        forallargs(pArg, True) MaxLen += 8 + strlen(pArg->str.p_str);
+        if (SetMaxCodeLen(MaxLen)) {
+            as_tempres_free(&t);
+            return;
+        }
         OK = True;
         forallargs(pArg, OK) if (OK) {
             EvalStrExpression(pArg, &t);
